@@ -1,5 +1,6 @@
 import ServlinVerif.Driver.C05
 import ServlinVerif.Model.Event
+import ServlinVerif.Model.EventChannel
 /- Driver for suites c04 / c09 / c10: the full server with a scripted handler. -/
 namespace Servlin
 namespace Drv.C04
@@ -13,7 +14,8 @@ inductive Beh where
   | drop
   | panic
   | file (code declared : Nat) (actual : Option Nat)   -- response with a file body (`none` = file missing)
-  | events (n : Nat)                                    -- event stream of n messages, then closed
+  | events (n : Nat) (code : Nat := 200)                -- event stream of n messages, then closed
+  | uploadThenEvents (k : Nat)                          -- fetch the body, then an event stream of the first min k 50 messages
 deriving Repr, DecidableEq
 
 structure SReq where
@@ -38,6 +40,9 @@ def parseBeh (s : String) : Beh :=
     | _ => .panic
   else
   if k == "E" then .events n else
+  if k == "X" then .events n 503 else
+  if k == "S" then .uploadThenEvents n else
+  if k == "Q" then .getBody 1000000 else
   if k == "w" then .getBody 1000000 else
   if k == "n" then .normal n else if k == "g" then .getBody n else if k == "a" then .always n
   else if k == "d" then .drop else .panic
@@ -90,8 +95,15 @@ def handlerOf (reqs : List SReq) (v : ReqView) : HandlerOut :=
   | .always m => .getBody m
   | .drop => .drop
   | .panic => .panic
-  | .events n =>
-    .normal { code := 200, ctype := some (str "text/event-stream"),
+  | .uploadThenEvents k =>
+    match v.body with
+    | none => .getBody 1000000
+    | some _ =>
+      -- the queue holds `EventChannel.capacity` events; a sender that overruns it is disconnected (C11), it never blocks
+      .normal { code := 200, ctype := some (str "text/event-stream"),
+                body := ⟨none, { pieces := (List.range (min k EventChannel.capacity)).map fun i => EventModel.encode (.message (str s!"e{i+1}-{ps}")) }⟩ }
+  | .events n code =>
+    .normal { code := code, ctype := some (str "text/event-stream"),
               body := ⟨none, { pieces := (List.range n).map fun i => EventModel.encode (.message (str s!"e{i+1}-{ps}")) }⟩ }
   | .file code declared actual =>
     let content : Bytes := (List.range (actual.getD 0)).map fun i => (97 + i % 26).toUInt8
@@ -124,7 +136,7 @@ def exchangeCheck (reqs : List SReq) (calls : List String) (wire : Bytes) (cut :
   let sorted := (is.zip (is.drop 1)).all fun p => p.1 ≤ p.2
   let counts := reqs.zipIdx.map fun (_, i) => (is.filter (· == i)).length
   let multOk := (reqs.zip counts).all fun (r, n) =>
-    n ≤ 1 || (n == 2 && (match r.beh with | .getBody _ | .always _ | .getBodyThen _ _ => true | _ => false))
+    n ≤ 1 || (n == 2 && (match r.beh with | .getBody _ | .always _ | .getBodyThen _ _ | .uploadThenEvents _ => true | _ => false))
   -- I3: bodies seen equal bodies sent; a second call sees the complete body
   let bodiesOk := calls.all fun call =>
     match call.splitOn ":" with
